@@ -30,7 +30,7 @@ theorem C03_step_open (c : CallSt) (input : Bytes) (cap : Nat)
   have hw : c.writer = { mode := .chunked, ended := false } := by
     cases hwr : c.writer with | mk m e => rw [hwr] at hm he; simp at hm he; simp [hm, he]
   unfold CallSt.writeBodyPhase
-  simp only [hw, BodyWriter.leftToSend, BodyWriter.write, Bool.and_false, Bool.false_eq_true, if_false]
+  simp only [hw, BodyWriter.overLimit, BodyWriter.leftToSend, BodyWriter.write, Bool.and_false, Bool.false_eq_true, if_false]
   by_cases hi : input = []
   · subst hi
     by_cases h5 : 5 ≤ cap
@@ -65,7 +65,7 @@ theorem C03_step_ended (c : CallSt) (input : Bytes) (cap : Nat)
   · intro hi
     subst hi
     unfold CallSt.writeBodyPhase
-    simp [hw, BodyWriter.leftToSend, BodyWriter.write]
+    simp [hw, BodyWriter.overLimit, BodyWriter.leftToSend, BodyWriter.write]
     cases c; simp_all
 
 theorem runBody_ended (ops : List (Bytes × Nat)) : ∀ (c : CallSt),
